@@ -207,6 +207,39 @@ func (e *Engine) checkAllRaw(s *Sys) *Violation {
 		if n.ActiveArchetypeCount > n.ArchetypeCount || n.ActiveArchetypeCount < 0 {
 			return e.v(s, "stats", "node %d: ActiveArchetypeCount=%d ArchetypeCount=%d", i, n.ActiveArchetypeCount, n.ArchetypeCount)
 		}
+		// the per-table entries add up to the node's figures; their sizes, in the order reported, are part of the
+		// run's log (the same operations must give the same report in every process: C13)
+		sum, active := 0, 0
+		for j := range n.Archetypes {
+			a := &n.Archetypes[j]
+			if a.IsActive {
+				active++
+				sum += a.Size
+			}
+			if s.Name == "primary" {
+				e.log.U64(uint64(a.Size)<<1 | b2u(a.IsActive))
+			}
+		}
+		if len(n.Archetypes) != n.ArchetypeCount || active != n.ActiveArchetypeCount || (n.IsActive && sum != n.Size) {
+			return e.v(s, "alive-count", "Stats(): node %d reports %d tables (%d active, %d rows), its table entries are %d (%d active, %d rows)", i, n.ArchetypeCount, n.ActiveArchetypeCount, n.Size, len(n.Archetypes), active, sum)
+		}
+		// the node's component list: IDs ascending, types as registered
+		for j, id := range n.ComponentIDs {
+			if j < len(n.ComponentTypes) && int(id) < len(st.ComponentTypes) && n.ComponentTypes[j] != st.ComponentTypes[id] {
+				return e.v(s, "registry", "Stats(): node %d lists component ID %d with type %v, the world's ComponentTypes[%d] is %v", i, id, n.ComponentTypes[j], id, st.ComponentTypes[id])
+			}
+		}
+	}
+	// ComponentTypes is indexed by component ID
+	if len(st.ComponentTypes) != st.ComponentCount {
+		return e.v(s, "registry", "Stats().ComponentTypes has %d entries, ComponentCount is %d", len(st.ComponentTypes), st.ComponentCount)
+	}
+	for i, tp := range st.ComponentTypes {
+		var id ecs.ID
+		*(*uint8)(unsafe.Pointer(&id)) = uint8(i)
+		if info, ok := ecs.ComponentInfo(w, id); !ok || info.Type != tp {
+			return e.v(s, "registry", "Stats().ComponentTypes[%d] = %v, ComponentInfo of that ID says %v", i, tp, info.Type)
+		}
 	}
 	// alive set through All()
 	q := w.Query(ecs.All())
@@ -468,6 +501,22 @@ func (e *Engine) census(s *Sys) *Violation {
 func (e *Engine) checkRegistry(s *Sys) *Violation {
 	w := s.W
 	ids := ecs.ComponentIDs(w)
+	if len(ids) > 1 {
+		// the list handed out belongs to the caller: reversing it must not show in the next one (nor in another world's)
+		first := append([]ecs.ID{}, ids...)
+		for i, j := 0, len(ids)-1; i < j; i, j = i+1, j-1 {
+			ids[i], ids[j] = ids[j], ids[i]
+		}
+		again := ecs.ComponentIDs(w)
+		same := len(again) == len(first)
+		for i := 0; same && i < len(first); i++ {
+			same = again[i] == first[i]
+		}
+		if !same {
+			return e.v(s, "registry", "ComponentIDs reports another list after the slice it returned before was reversed by the caller")
+		}
+		ids = first
+	}
 	if len(ids) != len(s.regOrder) {
 		return e.v(s, "registry", "ComponentIDs has %d entries, %d types were registered", len(ids), len(s.regOrder))
 	}
